@@ -68,6 +68,12 @@ def gen_program(rng):
     if rng.random() < 0.3:
         new['consumers'].append([(rng.choice(NAMES), top + 1)])      # a whole new consumer, appended
         added += 1
+    # version numbers need not be small or dense
+    scale = rng.choice([None, None, [0, 2, 8, 9, 17, 33, 64, 100], [0, 1, 8, 10, 11, 12, 40, 41], [0, 7, 8, 15, 16, 31, 32, 63]])
+    if scale is not None:
+        def rs(prog):
+            return dict(obj=[(n, scale[v]) for n, v in prog['obj']], consumers=[[(n, scale[v]) for n, v in c] for c in prog['consumers']])
+        old, new = rs(old), rs(new)
     return old, new, added
 
 
@@ -110,6 +116,63 @@ def ids_of(prog, tag, world):
     return out, impl
 
 
+def switch_and_call(prog, tag, world):
+    """A single-node cluster running the new code: the enabled version is raised step by step through every version
+    number that occurs; after each step every method is called by its plain name and must run its newest
+    implementation whose version is not above the enabled one (each implementation returns (name, version, x))."""
+    so = M.so
+    ns = dict(SyncObj=so.SyncObj, SyncObjConsumer=so.SyncObjConsumer, replicated=so.replicated)
+    exec(compile(build_source(prog, tag), '<c17-%s>' % tag, 'exec'), ns)
+    consumers = [ns['Cons%d_%s' % (ci, tag)]() for ci in range(len(prog['consumers']))]
+    conf = M.cf.SyncObjConf(autoTick=False, raftMinTimeout=0.4, raftMaxTimeout=0.6, appendEntriesPeriod=0.1)
+    world.cur = 0
+    node = ns['Obj_%s' % tag](world.hosts[0], world.hosts[0].addr, [], conf, consumers)
+    targets = [(node, prog['obj'])] + [(consumers[ci], c) for ci, c in enumerate(prog['consumers'])]
+
+    def ticks(k):
+        for _ in range(k):
+            world.T += 0.05
+            node._onTick(0.0)
+    problem = None
+    try:
+        for _ in range(40):
+            ticks(1)
+            if node._isLeader():
+                break
+        vers = sorted(set(v for _, ms in targets for _, v in ms))
+        for v in vers:
+            if v > 0:
+                node.setCodeVersion(v, callback=lambda r, e: None)
+                ticks(4)
+            if node.getCodeVersion() != v:
+                problem = 'setCodeVersion(%d) on a single node running code of version %d left the enabled version at %r' % (v, max(vers), node.getCodeVersion())
+                break
+            for ti, (target, ms) in enumerate(targets):
+                for name in sorted(set(n for n, _ in ms)):
+                    cands = [ver for n, ver in ms if n == name and ver <= v]
+                    if not cands:
+                        continue
+                    out = []
+                    try:
+                        getattr(target, name)(7, callback=lambda r, e: out.append((r, e)))
+                        ticks(3)
+                    except Exception as e:
+                        problem = 'enabled version %d: calling %s of %s raised %r' % (v, name, 'the object' if ti == 0 else 'consumer %d' % (ti - 1), e)
+                        break
+                    if not out or out[0][1] != 0 or not isinstance(out[0][0], tuple) or out[0][0][1] != max(cands):
+                        problem = 'enabled version %d: %s of %s (implementations for versions %r) ran %r, expected the implementation of version %d' % (
+                            v, name, 'the object' if ti == 0 else 'consumer %d' % (ti - 1), sorted(ver for n, ver in ms if n == name), out[:1], max(cands))
+                        break
+                if problem:
+                    break
+            if problem:
+                break
+    finally:
+        node._destroy()
+        world.net.kernel_close_host(0)
+    return problem
+
+
 def run_program(seed, cfg, events):
     t0 = _time.time()
     install()
@@ -137,6 +200,12 @@ def run_program(seed, cfg, events):
             viol.append(dict(inv='method_id_changed', prop=PROP, evno=1, detail=None,
                              msg='log entries with method id %d execute %r in the old code and %r in the new code' % (fid, impl_old.get(fid), impl_new.get(fid))))
             break
+    if not viol:
+        w3 = World(seed, dict(n_voters=1), None)
+        CTX.world = w3
+        problem = switch_and_call(new, 'sw', w3)
+        if problem:
+            viol.append(dict(inv='wrong_version_called', prop=PROP, evno=1, detail=dict(new=build_source(new, 'new')), msg=problem))
     CTX.world = None
     dig = hashlib.sha256(repr((old, new)).encode()).hexdigest()
     return dict(seed=seed, cfg=dict(mode='program'), events=events, n_events=1, sim_time=0.0, digest=dig, violations=viol, cross=[],
